@@ -116,10 +116,10 @@ claim("C13", "Offset round trip (BC view = shared + offset, write-back subtracts
       "sharing-vs-equality rewrites checked by the bounded engine suite.",
       "contract-based deductive verification + bounded engine suite", level="other")
 claim("C14", "P1+P2 deductively (C05); exact hull (every output bound is attained by a tuple of the input box that satisfies the relation: explicit witness tuples, unbounded arity) proved for "
-      "max_leq, min_geq, affine_leq, affine_geq, and, max_eq, min_eq, element_iv (list invariants: strictly descending, complete through a ghost rank array) and relation (unbounded table; each bound attained by a table row inside the input box); 'a second consecutive call changes nothing' and the uniqueness of the exact hull "
+      "max_leq, min_geq, affine_leq, affine_geq, and, max_eq, min_eq, element_iv and element_lic (list invariants: strictly descending, complete through a ghost rank array) and relation (unbounded table; each bound attained by a table row inside the input box); 'a second consecutive call changes nothing' and the uniqueness of the exact hull "
       "follow for these from P1, P2, P5 by the meta-lemmas M-IDEM / M-EXACT-UNIQUE, proved on every run over an uninterpreted relation and arbitrary arity (nucsvc/metalemmas.py); "
       "for all 18 listed propagators exactness (hull, inconsistency iff empty, idempotence; one interval round for affine_eq via hull of its own output) by the bounded propagator suites on exhaustively enumerated small scopes.",
-      "contract-based deductive verification (witness tuples) for 9 propagators + meta-lemmas + bounded run-time contract checks", level="other")
+      "contract-based deductive verification (witness tuples) for 10 propagators + meta-lemmas + bounded run-time contract checks", level="other")
 claim("C18", "get_message contract under an explicit environment contract: every Queue.get has a timeout; an iteration that finds the queue empty while an unfinished worker is dead leaves by raising (never loops on); the reducers track completion flags exactly. Bounded stand-in (not counted as proved): the real get_message against deterministic stand-ins for Queue and Process over every small fault script (harness/bounded_faults.py).",
       "contract-based deductive verification of a safety reformulation under an environment contract + bounded fault scripts", level="other")
 claim("C08", "Shrink-only and frame clauses of BC and shaving (postconditions), exact set semantics of the propagation queue (add_propagators, pop_propagator), "
